@@ -10,7 +10,13 @@
      expression is exact for the release profile.  In the debug profile an overflowing `+`/`*` panics
      instead; the only overflow reachable before the shape check is the shape product itself, modelled in
      [shape_product]; after a passed check in the debug profile w*h < 2^64 and every index expression is
-     below w*h (Proofs: no wrap occurs), so the wraps are the identity there;
+     below w*h (Proofs/TransposeProofs.v discharges every wrap of a well-shaped run with [wrap64_id]), so
+     the wraps are the identity there;
+   * loops run on fuel [fuel_of data] = len data + 1: enough for every call that passes a non-wrapping
+     shape check with width, height >= 1 (each loop runs at most max(width, height) <= width*height
+     times).  [OutOfFuel] therefore only arises (i) for a wrapped product whose block loops would spin
+     ~2^59 times over an empty inner loop, (ii) for the AVX2 entry points called directly with one zero
+     dimension (transpose_matrix returns before); the correspondence treats both as "model undecided";
    * element values are POLYMORPHIC ([T : Type]): the code only moves elements (Copy), never inspects them;
    * the model is parametric in a configuration [tcfg] read from the source by checks/c15.py: the form of
      the two shape checks (plain `width * height` or `checked_mul(..).expect(..)`), and the two shuffle
